@@ -128,6 +128,16 @@ func canonVal(v reflect.Value) string {
 		if v.IsNil() {
 			return "n"
 		}
+		e := v.Elem()
+		if e.Kind() == reflect.Struct {
+			if u := e.FieldByName("Url"); u.IsValid() && u.Kind() == reflect.String { // *urlutil.URL: the string given to NewURL
+				return "s" + vh.Hex([]byte(u.String()))
+			}
+			id, rs := e.FieldByName("Id"), e.FieldByName("Response")
+			if id.IsValid() && rs.IsValid() { // *pack.ParamPack
+				return "l" + strconv.FormatInt(id.Int(), 10) + "," + strconv.FormatInt(rs.Int(), 10)
+			}
+		}
 		return "P"
 	case reflect.Slice:
 		if v.IsNil() {
@@ -297,7 +307,7 @@ func fillMarkers(p udp.UdpPack, n int, r *vh.Rng) {
 			v.SetMapIndex(reflect.ValueOf(fmt.Sprintf("RESIDUE-%d", n)), reflect.ValueOf("secret"))
 		case reflect.Ptr:
 			if f.typ == reflect.TypeOf((*urlutil.URL)(nil)) {
-				v.Set(reflect.ValueOf(urlutil.NewURL(fmt.Sprintf("http://residue/%d", n))))
+				v.Set(reflect.ValueOf(urlutil.NewURL(fmt.Sprintf("http://RESIDUE-%d/", n))))
 			} else {
 				v.Set(reflect.New(f.typ.Elem()))
 			}
